@@ -259,7 +259,14 @@ def rgen_generated_clients(ctx):
     ctx.R.floor("C20.GEN", n, 50, "generated client stubs")
 
 
-LIB_RULES = [r1_rollback, r2_build, r3_impls, r4_batch_builder, r5_builders_wrap_their_own_kind]
+def rkey_named_keys_are_json_strings(ctx):
+    """named: the same key/value pairs - the key reaches the buffer through serde_json's string serialiser only (= C17.W6)"""
+    from . import c17
+    import types
+    return c17.w6_runtime_key_encoding(ctx)
+
+
+LIB_RULES = [rkey_named_keys_are_json_strings, r1_rollback, r2_build, r3_impls, r4_batch_builder, r5_builders_wrap_their_own_kind]
 CONFIGS_QUICK = ["libs-all", "corpus"]
 CONFIGS_THOROUGH = ["libs-all", "facade-full", "corpus"]
 
